@@ -156,6 +156,27 @@ def c17_body(cfg):
             return dict(info, why="a read-only query raised on the adversarial class", exc=repr(exc), methods=sorted(set(SPY)))
         if SPY:
             return dict(info, why="special method invoked by a read-only query", methods=sorted(set(SPY)))
+        if not light:
+            # symlinks pointing at the nodes: attribute reads through a link must not consult the target's special methods
+            from anytree import SymlinkNode
+
+            def through_links(nodes):
+                out = []
+                for nd in nodes:
+                    link = SymlinkNode(nd)
+                    try:
+                        out.append((link.name, link.i, getattr(link, "nope", "<missing>")))
+                    except Exception as exc:
+                        out.append("raise:" + type(exc).__name__)
+                return out
+
+            lp = through_links(nodes_p)
+            del SPY[:]
+            ls = through_links(nodes_s)
+            if SPY:
+                return dict(info, why="special method of the TARGET invoked by an attribute read through a SymlinkNode", methods=sorted(set(SPY)))
+            if lp != ls:
+                return dict(info, why="attribute reads through a SymlinkNode differ", plain=lp, adversarial=ls)
         if qp != qs:
             d = [k for k in qp if qp[k] != qs.get(k)]
             return dict(info, why="read-only result differs", query=d[:4], plain=[qp[k] for k in d[:2]], adversarial=[qs[k] for k in d[:2]])
